@@ -98,6 +98,10 @@ var stdOps = []byte{0x01, 0x02, 0x03, 0x04, 0x05, 0x06, 0x07, 0x08, 0x09, 0x0a, 
 	0xf0, 0xf1, 0xf2, 0xf3, 0xf4, 0xf5, 0xfa, 0xfd, 0xfe, 0xff}
 
 // randomCode: mostly stack-balanced snippets from the standard opcode set with small pushed operands, plus raw bytes
+// tameGen: no raw random bytes and no operand-less random instructions (half of the differential cases: a state difference
+// shows only in a transaction that is not rolled back, and most wild programs end in an exceptional halt)
+var tameGen bool
+
 func randomCode(r *Rng, n int, targets []common.Address) []byte {
 	return randomCodeFrom(&Asm{}, r, n, targets)
 }
@@ -106,6 +110,9 @@ func randomCodeFrom(a *Asm, r *Rng, n int, targets []common.Address) []byte {
 	for i := 0; i < n; i++ {
 		switch k := r.Intn(100); {
 		case k < 30: // push small values then a binary/unary op
+			if tameGen {
+				a.PushU(uint64(1 + r.Intn(9))) // a third operand for ADDMOD / MULMOD
+			}
 			a.PushU(uint64(r.Intn(300))).PushU(uint64(r.Intn(70))).Op(stdOps[r.Intn(29)])
 		case k < 42: // memory
 			a.PushU(r.Next() % 1000).PushU(uint64(r.Intn(200))).Op(opMSTORE)
@@ -132,7 +139,10 @@ func randomCodeFrom(a *Asm, r *Rng, n int, targets []common.Address) []byte {
 				a.PushU(uint64([]int{0, 0, 1, 5000}[r.Intn(4)]))
 			}
 			a.PushBytes(t[:])
-			if r.Chance(55) {
+			if tameGen && r.Chance(75) {
+				// a bounded allowance: with "all gas" the mutual recursion of the generated contracts burns the transaction's gas
+				a.PushU(uint64([]int{700, 2300, 30000, 60000}[r.Intn(4)]))
+			} else if r.Chance(55) {
 				a.Op(opGAS)
 			} else if r.Chance(25) {
 				// a gas operand that does not fit 64 bits (all-ones is what compilers emit for "all gas"; the others have small low halves)
@@ -149,7 +159,11 @@ func randomCodeFrom(a *Asm, r *Rng, n int, targets []common.Address) []byte {
 			}
 			a.Op(kind, opPOP)
 			if r.Chance(40) {
-				switch r.Intn(4) {
+				rdc := r.Intn(4)
+				if tameGen {
+					rdc = 0 // the other windows end the frame (EIP-211) more often than not
+				}
+				switch rdc {
 				case 0:
 					a.Op(0x3d, opPUSH1, 0, opPUSH1, 0, 0x3e) // RETURNDATASIZE 0 0 RETURNDATACOPY
 				case 1: // nothing to copy, from just behind / far behind the end of the buffer (EIP-211: out of bounds all the same)
@@ -201,7 +215,18 @@ func randomCodeFrom(a *Asm, r *Rng, n int, targets []common.Address) []byte {
 				a.PushU(size).PushU(off).PushU(uint64(r.Intn(2))).Op(opCREATE, opPOP)
 			}
 		case k < 90: // environment / block ops
-			a.Op(stdOps[29+r.Intn(22)])
+			eop := stdOps[29+r.Intn(22)]
+			if tameGen {
+				a.PushU(uint64(r.Intn(40))) // an operand for those that take one (BALANCE, CALLDATALOAD, BLOCKHASH, EXTCODESIZE, …)
+				if eop == 0x37 || eop == 0x39 || eop == 0x3c || eop == 0x3e {
+					// the copy instructions take their sizes from whatever is on the stack: give them small ones
+					a.PushU(uint64(r.Intn(40))).PushU(uint64(r.Intn(40))).PushU(uint64(r.Intn(40)))
+					if eop == 0x3e {
+						eop = 0x39 // (RETURNDATACOPY windows are generated after calls)
+					}
+				}
+			}
+			a.Op(eop)
 			if r.Chance(70) {
 				a.Op(opPOP)
 			}
@@ -212,14 +237,16 @@ func randomCodeFrom(a *Asm, r *Rng, n int, targets []common.Address) []byte {
 				a.Op(opINVALID)
 			}
 			a.Op(opJUMPDEST)
-		case k < 97: // raw random byte (undefined opcodes, stack underflows, …), never a journal opcode
+		case k < 97 && !tameGen: // raw random byte (undefined opcodes, stack underflows, …), never a journal opcode
 			b := byte(r.Next())
 			if b >= 0xe0 && b <= 0xe7 {
 				b = 0xfe
 			}
 			a.Op(b)
-		default:
+		case !tameGen:
 			a.Op(stdOps[r.Intn(len(stdOps))])
+		default: // tame programs: another storage access instead of a byte that most likely ends the frame
+			a.PushU(uint64(r.Intn(4))).PushU(uint64(r.Intn(6))).Op(opSSTORE)
 		}
 	}
 	switch r.Intn(5) {
@@ -667,6 +694,12 @@ func driveDiff(seed uint64, n int, size int, em *Emitter) {
 	for i := 0; i < n; i++ {
 		em.Reset(fmt.Sprintf("diff-%d-%d", seed, i))
 		c := &diffCase{fork: forkNames[r.Intn(12)], codes: map[common.Address][]byte{}, jpOn: r.Bool(), value: big.NewInt(int64([]int{0, 0, 9}[r.Intn(3)]))}
+		tameGen = r.Chance(50)
+		if tameGen && r.Chance(70) {
+			// a rule set that knows every instruction the generator emits (on older ones most programs die at the first
+			// STATICCALL, CREATE2, shift or RETURNDATASIZE: the fork gate is exercised by the other cases)
+			c.fork = []string{"Istanbul", "Berlin", "London", "Merge", "Shanghai"}[r.Intn(5)]
+		}
 		if r.Chance(12) {
 			all := []int{1344, 1884, 2200, 2929, 3198, 3855, 3860}
 			c.extraEip = []int{all[r.Intn(len(all))]}
@@ -750,6 +783,16 @@ func driveDiff(seed uint64, n int, size int, em *Emitter) {
 		}
 		em.Op("C01,C02,C18", fmt.Sprintf("S upstream-same %s jp=%v eips=%v", c.fork, c.jpOn, len(c.extraEip)), verdict)
 		em.Count(fmt.Sprintf("diff:steps=%d", min(len(f.trace)/50, 10)*50))
+		// how the top-level frame ended (a state difference is only visible when the transaction is not rolled back)
+		em.Count(fmt.Sprintf("diff:tame=%v", tameGen))
+		switch {
+		case strings.Contains(u.summary, "err=<nil>"):
+			em.Count("diff:top-level-outcome=success")
+		case strings.Contains(u.summary, "err=execution reverted"):
+			em.Count("diff:top-level-outcome=revert")
+		default:
+			em.Count("diff:top-level-outcome=exceptional-halt")
+		}
 		em.Count("diff:fork=" + c.fork)
 		// C02: gas-limit sweep — one short of, exactly on and one above intermediate gas values of the run
 		if verdict == "same" && !c.create {
